@@ -435,7 +435,7 @@ def rule_views(run):
 
 def rule_template_arg(run):
     from ..rules import eqhash
-    eqhash.run_rule(run, "F-EQ", ["cohdl/std/_fixed.py", "cohdl/std/_template.py"])   # fixed-point formats are cache keys of the serialised types
+    eqhash.run_rule(run, "F-EQ", ["cohdl/std/_fixed.py", "cohdl/std/_template.py", "cohdl/std/utility.py", "cohdl/std/enum.py", "cohdl/std/bitfield.py"])   # fixed-point formats are cache keys of the serialised types
 
 
 RULES = [rule_core, rule_record, rule_std_array, rule_bitfield, rule_adapters, rule_template, rule_value_qualifier, rule_views, rule_template_arg]
